@@ -7,6 +7,7 @@ from vsa.front import AnalysisBroken
 from vsa.interval import Range, fmt
 from vsa.alg import Fold, S, F as Fn, equal, canon
 from vsa.cfg import CFG
+from vsa.cases import decide, executes, resolve_ite, ites, congruent, subst
 
 LEVEL = "proof"
 T = "votca::tools::"
@@ -73,49 +74,31 @@ def run(rep, tier):
         rep.check(good, "R13.2", "resize-after-write|" + w.qname.split("::")[-1], "Initialize_() follows the write of nbins_ on every path",
                   "%s writes nbins_ but does not re-initialise the table on every path" % w.qname, w.loc(asg[0]))
 
-    # bin index formula and step formulas (ALG)
+    # bin index formula, out-of-range behaviour (ALG + case analysis) and step formulas
     fo = Fold(proc).run()
-    idx_decl = None
-    for st in proc.body["stmts"]:
-        if st.get("k") == "decl":
-            for d in st["decls"]:
-                if d["name"] and "long" in d["type"] and d.get("init") is not None:
-                    idx_decl = d
-                    break
-        if idx_decl:
-            break
-    if idx_decl is None:
-        rep.broken("R13.2", "bin index declaration not found in HistogramNew::Process")
-    else:
-        val = Fold(proc).ev(idx_decl["init"], {})
-        v, mn, stp = S("v"), S("min_"), S("step_")
-        want = Fn("toint")(Fn("floor")((v - mn) / stp + sp.Rational(1, 2)))
-        rep.check(equal_fn(val, want), "R13.2", "index|HistogramNew::Process", "i = %s" % val,
-                  "bin index is %s, not floor((v-min)/step + 1/2): values are not assigned to the nearest bin centre" % val,
-                  proc.loc(idx_decl), sample=True)
+    acc = [e for e in fo.events if e["kind"] == "store" and e.get("target_node") is not None and unwrap(e["target_node"]).get("k") == "mcall"
+           and unwrap(e["target_node"]).get("callee") == T + "Table::y" and e.get("idx")]
+    vname = proc.j["params"][0]["name"]
+    check_binning(rep, "HistogramNew::Process", proc, fo, acc, (S(vname) - S("min_")) / S("step_") + sp.Rational(1, 2),
+                  S("nbins_"), "periodic_", True)
     fi = Fold(init_).run()
-    step_stores = [e for e in fi.events if e["kind"] == "store" and e.get("field") == T + "HistogramNew::step_"]
+    stepv = fi.final_env.get(("field", "step_"))
     mx, mn, N = S("max_"), S("min_"), S("nbins_")
-    seen = {"periodic": False, "open": False, "one": False}
-    for e in step_stores:
-        g = [(fi.cond_str(c), pol) for c, pol, _ in e["guards"]]
-        val = e["value"]
-        if g and g[-1] == ("periodic_", True):
-            seen["periodic"] = True
-            rep.check(equal(val, (mx - mn) / N), "R13.2", "step|periodic", "step = %s" % val,
-                      "periodic step is %s, not (max-min)/N" % val, init_.loc(e["node"]), sample=True)
-        elif g and g[-1] == ("periodic_", False):
-            seen["open"] = True
-            rep.check(equal(val, (mx - mn) / (N - 1)), "R13.2", "step|non-periodic", "step = %s" % val,
-                      "non-periodic step is %s, not (max-min)/(N-1): bins are not centred on min+k*step up to max" % val,
-                      init_.loc(e["node"]), sample=True)
-        elif g and "nbins_" in g[-1][0] and "==" in g[-1][0]:
-            seen["one"] = True
-            rep.check(equal(val, sp.Integer(1)), "R13.2", "step|N=1", "step = 1 for N == 1", "step for N == 1 is %s" % val,
-                      init_.loc(e["node"]))
-    for k_, v_ in seen.items():
-        if not v_:
-            rep.broken("R13.2", "step assignment for case '%s' not recognised in Initialize_" % k_)
+    if stepv is None or isinstance(stepv, (tuple, sp.Matrix)):
+        rep.broken("R13.2", "HistogramNew::Initialize_ does not assign step_")
+    else:
+        one = {"(nbins_ == 1)": True, "(1 == nbins_)": True}
+        many = {"(nbins_ == 1)": False, "(1 == nbins_)": False}
+        cases_ = (("periodic", dict(many, periodic_=True), (mx - mn) / N, "periodic step is %s, not (max-min)/N"),
+                  ("non-periodic", dict(many, periodic_=False), (mx - mn) / (N - 1), "non-periodic step is %s, not (max-min)/(N-1): bins are not centred on min+k*step up to max"),
+                  ("N=1", dict(one, periodic_=True), sp.Integer(1), "step for N == 1 (periodic) is %s, not 1"),
+                  ("N=1,open", dict(one, periodic_=False), sp.Integer(1), "step for N == 1 is %s, not 1"))
+        for nm, atoms, want, msg in cases_:
+            val = resolve_ite(stepv, atoms)
+            if ites(val):
+                rep.broken("R13.2", "HistogramNew::Initialize_: step_ depends on a condition the rule does not know: %s" % str(ites(val)[0].args[0])[:120])
+                continue
+            rep.check(equal(val, want), "R13.2", "step|" + nm, "step = %s" % val, msg % val, init_.loc(), sample=True)
 
     # normalisation
     norm = F.one(T + "HistogramNew::Normalize")
@@ -145,45 +128,36 @@ def run(rep, tier):
     rep.check(ok, "R13.2", "sized|Histogram::ProcessData", "pdf_.assign(options_.n_, 0) dominates every subscript",
               "pdf_ is not sized with options_.n_ before it is subscripted", pd.loc(asg[0] if asg else None))
 
-    # legacy bin index and interval
-    ii = None
-    for n in pd.walk():
-        if n.get("k") == "decl":
-            for d in n["decls"]:
-                if d["name"] == "ii" or ("long" in d["type"] and d.get("init") is not None and unwrap(d["init"]).get("k") == "cast" and ii is None and "floor" in show(d["init"])):
-                    ii = d
-    if ii is None:
-        rep.broken("R13.2", "legacy bin index declaration not found")
+    # legacy bin index, out-of-range behaviour and interval
+    fp = Fold(pd, snap=r"^interval_$|^pdf_\[").run()
+    acc2 = [e for e in fp.events if e["kind"] == "store" and e.get("idx") and e["target"].startswith("pdf_[")
+            and unwrap(e["node"]).get("k") == "assign" and unwrap(e["node"]).get("op") == "+="]
+    acc2 = acc2[:1]
+    vsym = None
+    if acc2 and "env" in acc2[0]:
+        from sympy.core.function import AppliedUndef
+        fl = [a_ for a_ in sp.preorder_traversal(acc2[0]["idx"][0]) if str(getattr(a_, "func", "")) == "floor"]
+        if fl:
+            arg = fl[0].args[0]
+            arg = arg.xreplace({a_: S("_loop%d" % i) for i, a_ in enumerate(sorted(arg.atoms(AppliedUndef), key=str)) if str(a_.func).startswith(("LOOP_", "SUM_"))})
+            syms = sorted({x for x in arg.free_symbols if re.match(r"^\w+@L\d+$", str(x))}, key=str)
+            vsym = syms[0] if len(syms) == 1 else None
+    if vsym is None:
+        rep.broken("R13.2", "legacy Histogram::ProcessData: accumulation into pdf_[floor(..)] of the loop value not found")
     else:
-        val = Fold(pd).ev(ii["init"], {})
-        free = sorted(val.free_symbols, key=str)
-        value_syms = [s for s in free if str(s) not in ("min_", "interval_")]
-        ok = False
-        if len(value_syms) == 1:
-            want = Fn("toint")(Fn("floor")((value_syms[0] - S("min_")) / S("interval_") + sp.Rational(1, 2)))
-            ok = equal_fn(val, want)
-        rep.check(ok, "R13.2", "index|Histogram::ProcessData", "ii = %s" % val,
-                  "legacy bin index is %s, not floor((value-min)/interval + 1/2)" % val, pd.loc(ii), sample=True)
-    fp = Fold(pd).run()
+        env_ = acc2[0]["env"]
+        want_arg = (vsym - env_.get(("field", "min_"), S("min_"))) / env_.get(("field", "interval_"), S("interval_")) + sp.Rational(1, 2)
+        check_binning(rep, "Histogram::ProcessData", pd, fp, acc2, want_arg, S("options_.n_"), "options_.periodic_", True)
     ist = [e for e in fp.events if e["kind"] == "store" and e.get("field") == T + "Histogram::interval_"]
-    if len(ist) != 1:
+    if len(ist) != 1 or "env" not in ist[0]:
         rep.broken("R13.2", "expected one store to interval_ in ProcessData, found %d" % len(ist))
     else:
+        env_ = ist[0]["env"]
+        hi, lo = env_.get(("field", "max_"), S("max_")), env_.get(("field", "min_"), S("min_"))
         val = ist[0]["value"]
-        free = {str(s): s for s in val.free_symbols}
-        n_sym = [s for k_, s in free.items() if "n_" in k_]
-        # min_/max_ may be ite-terms after the auto-range branch: compare shape (hi - lo)/(n-1) on the node instead
-        node = unwrap(ist[0]["node"])
-        rhs = unwrap(node["rhs"]) if node.get("k") == "assign" else None
-        ok = False
-        if rhs is not None and rhs.get("k") == "binop" and rhs["op"] == "/":
-            num = unwrap(rhs["lhs"]); den = unwrap(rhs["rhs"])
-            while den.get("k") == "cast":
-                den = unwrap(den["sub"])
-            ok = (show(num) == "(max_ - min_)" and den.get("k") == "binop" and den["op"] == "-" and is_N2(unwrap(den["lhs"]))
-                  and lit_value(den["rhs"]) == 1)
-        rep.check(ok, "R13.2", "step|legacy", "interval_ = (max_-min_)/(n_-1)", "legacy interval_ is %s, not (max_-min_)/(n_-1)" % show(rhs),
-                  pd.loc(node), sample=True)
+        ok = not isinstance(val, (tuple, sp.Matrix)) and equal(val, (hi - lo) / (S("options_.n_") - 1))
+        rep.check(ok, "R13.2", "step|legacy", "interval_ = (max_-min_)/(n_-1)", "legacy interval_ is %s, not (max_-min_)/(n_-1)" % str(val)[:200],
+                  pd.loc(ist[0]["node"]), sample=True)
 
     # R13.4 extremum seeds
     seeds = []
@@ -222,29 +196,22 @@ def run(rep, tier):
                           "%s is updated with %s(%s)" % (l["fname"], r["callee"], args), pd.loc(n))
     rep.floor("R13.4", upd, 2, "extremum updates")
 
-    # legacy Normalize
+    # legacy Normalize: every bin p_k becomes p_k / (interval_ * SUM p), the sum accumulated in floating point
     ln = F.one(T + "Histogram::Normalize")
     rep.analysed(ln)
-    fl = Fold(ln).run()
-    normd = [d for n in ln.walk() if n.get("k") == "decl" for d in n["decls"] if d["name"] == "norm"]
-    if not normd:
-        rep.broken("R13.3", "legacy Normalize: 'norm' not found")
+    from vsa.vecfold import VecFold, K, KB, SUMK, havoc_atoms
+    vl = VecFold(ln).run()
+    pv = vl.final_env.get(("field", "pdf_"))
+    if pv is None or not hasattr(pv, "e"):
+        rep.broken("R13.3", "legacy Normalize: pdf_ is not updated element-wise")
+    elif havoc_atoms(pv.e):
+        rep.broken("R13.3", "legacy Normalize: pdf_ is modified in a way the element-wise fold does not model: %s" % havoc_atoms(pv.e))
     else:
-        init = unwrap(normd[0]["init"])
-        ok = False
-        if init.get("k") == "binop" and init["op"] == "/" and lit_value(init["lhs"]) == 1:
-            den = unwrap(init["rhs"])
-            if den.get("k") == "binop" and den["op"] == "*":
-                parts = [unwrap(den["lhs"]), unwrap(den["rhs"])]
-                names = [show(p) for p in parts]
-                acc = [p for p in parts if p.get("k") == "call" and p.get("callee") == "std::accumulate"]
-                ok = "interval_" in names and len(acc) == 1 and lit_value(acc[0]["args"][2]) == 0 and "pdf_" in show(acc[0]["args"][0])
-        rep.check(ok, "R13.3", "normalize|Histogram", "norm = 1/(interval_*accumulate(pdf_))", "legacy norm is %s" % show(init), ln.loc(normd[0]), sample=True)
-
-    # R13.5 path shape: non-periodic branch leaves before the write
-    check_leave_before_write(rep, proc, sites, "HistogramNew::Process", T + "HistogramNew::periodic_")
-    acc_sites = [s for s in subs if is_compound_target(pd, s)]
-    check_leave_before_write(rep, pd, acc_sites[:1], "Histogram::ProcessData", T + "Histogram::options_t::periodic_")
+        p0 = Fn("at")(S("pdf_"), K)
+        want = p0 / (S("interval_") * SUMK(p0.xreplace({K: KB})))
+        rep.check(equal(pv.e, want), "R13.3", "normalize|Histogram", "pdf_[k] <- pdf_[k] / (interval_ * SUM pdf_)",
+                  "legacy Normalize turns bin k into %s, not pdf_[k]/(interval_*SUM pdf_) with a floating-point sum: the integral is not one" % str(pv.e)[:200],
+                  ln.loc(), sample=True)
 
 
 def equal_fn(a, b):
@@ -303,31 +270,95 @@ def check_site(rep, R, f, site, idx, where):
 
 def check_normalize_new(rep, norm):
     fo = Fold(norm).run()
-    stores = [e for e in fo.events if e["kind"] == "store"]
-    # expect  data_.y() *= scale  with scale = 1/(sum|y| * step)
-    target = None
-    for n in norm.walk():
-        if n.get("k") == "opcall" and n.get("op") == "*=":
-            target = n
-    if target is None:
-        rep.broken("R13.3", "HistogramNew::Normalize: no multiplicative update of the bins found")
+    y = Fn("y")(S("data_"))
+    st = [e for e in fo.events if e["kind"] == "store" and e["target"].replace(" ", "") == "data_.y()"]
+    if len(st) != 1 or isinstance(st[0]["value"], (tuple, sp.Matrix)):
+        rep.broken("R13.3", "HistogramNew::Normalize: expected one update of data_.y(), found %d" % len(st))
         return
-    rhs = unwrap(target["args"][1])
-    val = fo.final_env.get(rhs.get("decl")) if rhs.get("k") == "ref" else None
-    s = str(val)
-    yy = Fn("sum")(Fn("cwiseAbs")(Fn("y")(S("data_"))))
-    ok = False
-    if val is not None:
-        try:
-            cand = 1 / (yy * S("step_"))
-            ok = equal(val, cand)
-        except Exception:
-            ok = False
-    rep.check(ok, "R13.3", "normalize|HistogramNew", "scale = %s" % s,
-              "HistogramNew::Normalize scales by %s, not 1/(sum|y|*step): the integral is not one" % s, norm.loc(target), sample=True)
-    lhs = unwrap(target["args"][0])
-    rep.check(show(lhs) == "data_.y()", "R13.3", "normalize-target|HistogramNew", "all bins scaled (data_.y() *= scale)",
-              "Normalize scales %s" % show(lhs), norm.loc(target))
+    val = st[0]["value"]
+    scale = sp.cancel(val / y)
+    want = 1 / (Fn("sum")(Fn("cwiseAbs")(y)) * S("step_"))
+    ok = not scale.has(y.func) or equal(scale, want)
+    rep.check(equal(scale, want), "R13.3", "normalize|HistogramNew", "data_.y() <- data_.y() * %s" % scale,
+              "HistogramNew::Normalize turns the bins into %s, not y/(sum|y|*step): the integral is not one" % str(val)[:200], norm.loc(st[0]["node"]), sample=True)
+    rep.holds("R13.3", "normalize-target|HistogramNew", "all bins scaled (data_.y() updated as a whole)", norm.loc(st[0]["node"]))
+
+
+def check_binning(rep, where, f, fo, acc, want_arg, Nsym, periodic, do_congruence):
+    """the accumulation store: index = floor(want_arg) when inside [0,N), left alone (non-periodic) or wrapped by a true modulo
+    (periodic) when outside.  The raw index is touched only through comparisons with 0 and N: one representative per ordering."""
+    if len(acc) != 1:
+        rep.broken("R13.2", "%s: expected one accumulation into the bin array, found %d" % (where, len(acc)))
+        return
+    e = acc[0]
+    idx = e["idx"][0]
+    if isinstance(idx, (tuple, sp.Matrix)):
+        rep.broken("R13.2", "%s: the bin subscript does not fold to a scalar" % where)
+        return
+    fl = {a for a in sp.preorder_traversal(idx) if str(getattr(a, "func", "")) == "floor"}
+    for g_ in list(e["guards"]) + [x for gl in e.get("not", []) for x in gl]:
+        fl |= floors_in(g_[0])
+    okf = len(fl) == 1 and equal_fn(list(fl)[0].args[0], want_arg)
+    rep.check(okf, "R13.2", "index|" + where, "bin index = floor(%s)" % want_arg,
+              "%s: the bin index is derived from %s, not floor((v-min)/step + 1/2): values are not assigned to the nearest bin centre" % (
+                  where, sorted(str(a) for a in fl)), f.loc(e["node"]), sample=True)
+    if not okf:
+        return
+    flo = list(fl)[0]
+    Nn = sp.Symbol("N", positive=True, integer=True)
+    conds = getattr(fo, "conds", {})
+
+    Zs = S("_Zraw")
+    pre = {Fn("toint")(flo): Zs, flo: Zs}
+    idx0 = idx.xreplace(pre)
+
+    def case(zval, per):
+        sub = {Fn("toint")(flo): zval, flo: zval, Zs: zval, Nsym: Nn}
+        atoms = {periodic: per}
+        ex = executes(e, sub, atoms)
+        iv = resolve_ite(idx0, lambda cs: decide(conds.get(cs), sub, atoms) if cs in conds else None)
+        iv = iv.xreplace(sub) if hasattr(iv, "xreplace") else iv
+        return ex, iv
+    inside = [("0", sp.Integer(0)), ("N-1", Nn - 1)]
+    outside = [("-1", sp.Integer(-1)), ("-N-1", -Nn - 1), ("N", Nn), ("2N+3", 2 * Nn + 3)]
+    for nm, z in inside:
+        for per in (True, False):
+            ex, iv = case(z, per)
+            if ex is None:
+                rep.broken("R13.5", "%s: cannot decide whether the accumulation runs for raw index %s (%speriodic)" % (where, nm, "" if per else "non-"))
+                continue
+            good = ex is True and not ites(iv) and sp.simplify(iv - z) == 0
+            rep.check(good, "R13.2", "%s|inside|%s|%s" % (where, nm, "periodic" if per else "open"), "raw index %s is counted in bin %s" % (nm, nm),
+                      "%s: a value whose nearest bin is %s is %s" % (where, nm, "not counted" if ex is not True else "counted in bin %s" % iv), f.loc(e["node"]))
+    for nm, z in outside:
+        ex, iv = case(z, False)
+        if ex is None:
+            rep.broken("R13.5", "%s: cannot decide whether the accumulation runs for raw index %s in non-periodic mode" % (where, nm))
+        else:
+            rep.check(ex is False, "R13.5", "leave|%s|%s" % (where, nm), "non-periodic: raw index %s is discarded" % nm,
+                      "%s: in non-periodic mode a value with raw bin index %s (outside [0,N-1]) is still counted (in bin %s)" % (where, nm, iv),
+                      f.loc(e["node"]), sample=(nm == "-1"))
+        ex, iv = case(z, True)
+        if ex is None:
+            rep.broken("R13.5", "%s: cannot decide whether the accumulation runs for raw index %s in periodic mode" % (where, nm))
+        else:
+            rep.check(ex is True, "R13.5", "wrap-counted|%s|%s" % (where, nm), "periodic: raw index %s is counted" % nm,
+                      "%s: in periodic mode a value with raw bin index %s is dropped" % (where, nm), f.loc(e["node"]))
+    if do_congruence:
+        Z = S("_Z")
+        iz = idx.xreplace({Fn("toint")(flo): Z}).xreplace({flo: Z})
+        rep.check(congruent(iz, Z, Nsym), "R13.5", "wrap-modulo|" + where, "bin index == raw index (mod N) on every branch",
+                  "%s: the wrapped bin index %s is not congruent to the raw index modulo the bin count" % (where, str(iz)[:200]), f.loc(e["node"]), sample=True)
+
+
+def floors_in(c):
+    out = set()
+    if isinstance(c, tuple):
+        for x in c:
+            out |= floors_in(x)
+    elif hasattr(c, "free_symbols"):
+        out |= {a for a in sp.preorder_traversal(c) if str(getattr(a, "func", "")) == "floor"}
+    return out
 
 
 def check_leave_before_write(rep, f, sites, where, periodic_field):
